@@ -4,6 +4,7 @@ CONSTANTS
   Txs <- T
   DenomValue <- DV
   RYW = TRUE
+  BaseFeeOn = FALSE
   MaxTxPerBlock = 4
   MaxBlocks = 3
 VIEW view
